@@ -15,7 +15,13 @@ func VerifHarness_SellAllPool_Deliver() {
 	u := verifUniverse() // config: pool20=1 concretePool=1
 	field := types.CoinID(verifConfig("gasCoinField"))
 	nonce0 := u.st.Accounts.GetNonce(u.A)
-	data := SellAllSwapPoolDataV260{Coins: []types.CoinID{verifCoinToken, 0}, MinimumValueToBuy: verifBigNN("minBuy")}
+	route := []types.CoinID{verifCoinToken, 0}
+	if verifConfig("route5") == 1 {
+		// cyclic route that comes back to the coin being sold before the last hop:
+		// the commission pool (2,0) is then used at hop 4, not hop 1
+		route = []types.CoinID{verifCoinToken, 4, 5, verifCoinToken, 0}
+	}
+	data := SellAllSwapPoolDataV260{Coins: route, MinimumValueToBuy: verifBigNN("minBuy")}
 	tx := verifTx(nonce0+1, verifGasPrice(), field, TypeSellAllSwapPool, data)
 	raw := verifSignBy(tx, 1)
 	resp, before, after := verifDeliverCheckedFee(u, tx, raw, u.A, nonce0, verifCoinToken)
